@@ -7,6 +7,7 @@ CONSTANTS
   MaxDt = 2
   MaxEdits = 0
   MaxSil = 0
+  MaxFails = 0
   RowsDelta = 0
 INVARIANTS StateLaw NotifLaw Bookkeeping TypeOK
 CHECK_DEADLOCK FALSE
